@@ -32,10 +32,12 @@ pub fn bpm(last_hit_object: Option<&HitObject>, timing_points: &[TimingPoint]) -
     }
 
     let most_common_beat_len = bpm_points
-        .map
+        .durations
         .into_iter()
         // * Get the most common one, or 0 as a suitable default
-        .max_by(|(_, a), (_, b)| a.total_cmp(b))
+        // On equal durations the beat length that appeared first is chosen,
+        // just like lazer's stable `OrderByDescending(..).FirstOrDefault()`.
+        .reduce(|best, curr| if curr.1 > best.1 { curr } else { best })
         .map_or(0.0, |(beat_len, _)| f64::from_bits(beat_len));
 
     60_000.0 / most_common_beat_len
@@ -44,23 +46,33 @@ pub fn bpm(last_hit_object: Option<&HitObject>, timing_points: &[TimingPoint]) -
 /// Maps `beat_len` to a cumulative duration
 struct BeatLenDuration {
     last_time: f64,
-    map: HashMap<u64, f64>,
+    /// Maps `beat_len` to its index in `durations`
+    indices: HashMap<u64, usize>,
+    /// Cumulative durations in order of first appearance of their `beat_len`
+    /// so that the result does not depend on the hash map's iteration order
+    durations: Vec<(u64, f64)>,
 }
 
 impl BeatLenDuration {
     fn new(last_time: f64) -> Self {
         Self {
             last_time,
-            map: HashMap::default(),
+            indices: HashMap::default(),
+            durations: Vec::new(),
         }
     }
 
     fn add(&mut self, beat_len: f64, curr_time: f64, next_time: f64) {
-        let beat_len = (1000.0 * beat_len).round() / 1000.0;
-        let entry = self.map.entry(beat_len.to_bits()).or_default();
+        let beat_len = ((1000.0 * beat_len).round() / 1000.0).to_bits();
+
+        let idx = *self.indices.entry(beat_len).or_insert_with(|| {
+            self.durations.push((beat_len, 0.0));
+
+            self.durations.len() - 1
+        });
 
         if curr_time <= self.last_time {
-            *entry += next_time - curr_time;
+            self.durations[idx].1 += next_time - curr_time;
         }
     }
 }
